@@ -89,6 +89,12 @@ def scan_harnesses():
                 elif key == 'modes':
                     # interpretations to try, in order (default: the declared one; U escalates to B then R)
                     h['modes'] = val.split()
+                elif key == 'weight':
+                    # scheduling weight (memory): harnesses of weight w > 1 run at most jobs // w at a time
+                    h['weight'] = int(val)
+                elif key == 'portfolio':
+                    # number of solver configurations raced after the first attempt (default 4)
+                    h['portfolio'] = int(val)
                 elif key == 'fallback':
                     # harnesses (of any tier) to decide when this sufficient-condition obligation comes back sat
                     h['fallback'] = val.split()
@@ -140,20 +146,33 @@ def codegen(feature, names, log):
         return idx, tdir, cmd, rc, out
 
     metas = {}
-    with cf.ThreadPoolExecutor(nshards) as ex:
-        for idx, tdir, cmd, rc, out in ex.map(one, range(nshards)):
-            log.write(f'$ {cmd[:300]} ...\n{out}\n')
-            if rc != 0:
-                raise RuntimeError(f'kani codegen failed (rc={rc}); see log\n' + out[-3000:])
-            want = set(shards[idx])
-            for mf in glob.glob(os.path.join(tdir, 'kani', '*', 'debug', 'build', 'vh', '*', 'out', 'vh-*.kani-metadata.json')):
-                md = json.load(open(mf))
-                for h in md['proof_harnesses']:
-                    nm = h['pretty_name'].split('::')[-1]
-                    if nm in want and os.path.exists(h['goto_file']) and os.path.getmtime(h['goto_file']) >= newest_src:
-                        prev = metas.get(nm)
-                        if prev is None or os.path.getmtime(h['goto_file']) > os.path.getmtime(prev['goto_file']):
-                            metas[nm] = h
+
+    def collect(todo):
+        with cf.ThreadPoolExecutor(nshards) as ex:
+            for idx, tdir, cmd, rc, out in ex.map(one, todo):
+                log.write(f'$ {cmd[:300]} ...\n{out}\n')
+                if rc != 0:
+                    raise RuntimeError(f'kani codegen failed (rc={rc}); see log\n' + out[-3000:])
+                want = set(shards[idx])
+                for mf in glob.glob(os.path.join(tdir, 'kani', '*', 'debug', 'build', 'vh', '*', 'out', 'vh-*.kani-metadata.json')):
+                    md = json.load(open(mf))
+                    for h in md['proof_harnesses']:
+                        nm = h['pretty_name'].split('::')[-1]
+                        if nm in want and os.path.exists(h['goto_file']) and os.path.getmtime(h['goto_file']) >= newest_src:
+                            prev = metas.get(nm)
+                            if prev is None or os.path.getmtime(h['goto_file']) > os.path.getmtime(prev['goto_file']):
+                                metas[nm] = h
+
+    collect(range(nshards))
+    redo = [i for i in range(nshards) if any(n not in metas for n in shards[i])]
+    if redo:
+        # cargo found nothing to do although outputs are missing or older than some source: its fingerprint
+        # covers only the files this feature compiles and not the harness selection. Force a rebuild once.
+        now = time.time()
+        os.utime(os.path.join(HARNESS, 'src', 'lib.rs'), (now, now))
+        newest_src = max(newest_src, os.path.getmtime(os.path.join(HARNESS, 'src', 'lib.rs')))
+        log.write(f'codegen: outputs missing or stale in shards {redo}: touched src/lib.rs and re-running\n')
+        collect(redo)
     return metas, time.time() - t0
 
 
@@ -355,6 +374,9 @@ def _classify(out):
     return 'error'
 
 
+PORTFOLIO = 4   # set per harness by run._decide (annotation @portfolio)
+
+
 def run_solver(lines, timeout, seed=0, solver=None, want=None, any_solver=False):
     """One query. First a short attempt with the primary configuration; if that is inconclusive, a portfolio
     of differently seeded / configured z3 runs in parallel (nonlinear-real and FP queries are seed-sensitive);
@@ -425,6 +447,7 @@ def run_solver(lines, timeout, seed=0, solver=None, want=None, any_solver=False)
                     (Z3, seed + 4, ('smt.arith.nl.grobner=false', 'smt.relevancy=0'))]
             if any_solver:
                 cfgs = cfgs[:3] + [('cvc5', seed, ())]
+            cfgs = cfgs[:max(1, PORTFOLIO)]
             v, out = race(cfgs, timeout)
     finally:
         if os.path.exists(qpath):
